@@ -38,6 +38,11 @@ STDLIB_AXIOMS = {
     'Classical_Prop.classic',
 }
 
+# Coq's primitive 63-bit integers (kernel primitives PrimInt63.* and the standard library's axiomatised specification
+# of them in Uint63.v): used by Bignums, on which the Interval library's arbitrary-precision floats are built. They show
+# up under the enclosure theorems (Reflect.v), which are statements about the interval instance.
+STDLIB_AXIOM_PREFIXES = ('Uint63.', 'PrimInt63.')
+
 FORBIDDEN = re.compile(
     r'\b(Admitted|admit|Axiom|Axioms|Parameter|Parameters|Conjecture|Conjectures|'
     r'Hypothesis|Hypotheses|Variable|Variables|Abort)\b|Unset\s+Guard|bypass_check|'
